@@ -79,6 +79,7 @@ type c12Conn struct {
 	spun    atomic.Bool
 
 	deadlineCalls atomic.Int64
+	emptyReads    atomic.Int64 // Reads answered with (0, nil)
 }
 
 func c12NewConn(name string) *c12Conn {
@@ -93,6 +94,38 @@ func (c *c12Conn) Feed(b []byte) {
 	}
 	c.mu.Lock()
 	c.in = append(c.in, b) // callers hand over immutable slices of the pattern buffer
+	c.cond.Broadcast()
+	c.mu.Unlock()
+}
+
+// FeedChunksWithEmpties feeds data in chunks and scatters `empties` zero-length entries
+// among them (seeded positions, runs allowed): each makes one Read return (0, nil), which
+// io.Reader permits and a caller must treat as "nothing happened".
+func (c *c12Conn) FeedChunksWithEmpties(data []byte, chunks []int, empties int, r interface{ Intn(int) int }) {
+	slots := make([]int, len(chunks)+1) // empties before chunk i (last = after all data)
+	for k := 0; k < empties; k++ {
+		slots[r.Intn(len(slots))]++
+	}
+	c.mu.Lock()
+	off := 0
+	for i := 0; i <= len(chunks); i++ {
+		for k := 0; k < slots[i]; k++ {
+			c.in = append(c.in, []byte{})
+		}
+		if i < len(chunks) {
+			n := chunks[i]
+			if off+n > len(data) {
+				n = len(data) - off
+			}
+			if n > 0 {
+				c.in = append(c.in, data[off:off+n])
+				off += n
+			}
+		}
+	}
+	if off < len(data) {
+		c.in = append(c.in, data[off:])
+	}
 	c.cond.Broadcast()
 	c.mu.Unlock()
 }
@@ -165,6 +198,9 @@ func (c *c12Conn) Read(p []byte) (int, error) {
 				c.in[0] = b[n:]
 			}
 			c.consumed += n
+			if n == 0 {
+				c.emptyReads.Add(1)
+			}
 			if len(c.in) == 0 && c.ended && c.endWithData && c.endErr != nil && !c.endSeen {
 				c.endSeen = true
 				err, hook := c.endErr, c.onEnd
@@ -516,7 +552,7 @@ func (w *c12Watch) snapshot() (sig string, parked bool) {
 			st = st[:i]
 		}
 		switch st {
-		case "running", "runnable", "syscall":
+		case "running", "runnable", "syscall", "sleep": // sleep = wakes up on its own
 			parked = false
 		}
 		parts = append(parts, "g"+g.ID+" ["+st+"] "+c12Frames(g.Stack))
@@ -564,7 +600,10 @@ func (w *c12Watch) until(cond func() bool) string {
 			continue
 		}
 		sig, parked := w.snapshot()
-		if parked && sig != "" && w.idle() {
+		// Parked in identical frames is decisive on its own: input that is still queued on an
+		// endpoint can only wake a goroutine blocked in that endpoint's Read, and such a
+		// goroutine would be runnable, not parked. (idle() is kept for the witness.)
+		if parked && sig != "" {
 			if sig == prev {
 				same++
 			} else {
